@@ -432,6 +432,23 @@ def check(case, ctx):
                     stj, ja = lib.call(p.parse, joined)
                     if stj != 'ok' or pmodel.diff(pmodel.expected(P), pmodel.observed(ja)):
                         ctx.fail('split-concatenation', s, joined, text=s)
+    # ---- the string wrappers called on ONE shared annotation object, one after the other: each result must equal the
+    # result for the string input (an in-place slip in a wrapper shows on the following call)
+    shared = p.parse(s)
+    wrappers = [('reverse', lambda x: p.reverse(x)), ('shift', lambda x: p.shift(x, 1)), ('sort', lambda x: p.sort(x)),
+                ('shuffle', lambda x: p.shuffle(x, 3)), ('split', lambda x: p.split(x))]
+    wrappers += [(f'span_to_sequence({i},{j})', (lambda x, i=i, j=j: p.span_to_sequence(x, (i, j, 0))))
+                 for i in range(0, n) for j in range(i + 1, n + 1) if not cuts_inside(P, i, j)][:12]
+    for name, fn in wrappers + wrappers[-3:]:
+        if has_iv and name in ('shift', 'split'):
+            continue
+        st_a, ra = lib.call(fn, shared)
+        st_b, rb = lib.call(fn, s)
+        ctx.evals += 2
+        nops += 1
+        if st_a != st_b or (st_a == 'ok' and ra != rb):
+            ctx.fail('wrapper-on-shared-annotation', rb, ra, op=name, text=s)
+            break
     ctx.sub_states = nops
     ctx.sub_nontrivial = nops
     ctx.outcome = s
